@@ -1,7 +1,10 @@
 """C15 — relays never see or alter end-to-end traffic (spec/RelayE2E.tla, whole nodes)."""
 
-RULE = ("V: RelayE2E.tla enumerates what a (lying) relay forwards to the target: sender x inner alteration (none, bit flips in "
-        "body/header, truncation, splice with another endpoint's ciphertext, replay, garbage) x relay record used (the sender's "
+RULE = ("V: RelayE2E.tla enumerates what a (lying) relay forwards to the target: sender x inner alteration (none, single-bit "
+        "flips (quick: one in every byte of the clear-text inner header + 5 in ciphertext/tag; thorough: all 128 header bits + every bit "
+        "of ciphertext and tag), clear-text type/subtype rewritten to handshake, nested relay, lighthouse, test request/reply, close "
+        "tunnel, control, fresh counter over the genuine ciphertext, truncation, splice with another endpoint's ciphertext, "
+        "replay, garbage) x relay record used (the sender's "
         "or another endpoint's). Each vector is executed on 4 complete nodes in a synctest bubble with the harness re-wrapping "
         "real inner packets under the relay's real hop keys; distinct = vectors")
 ASSUMPTIONS = [
@@ -13,13 +16,18 @@ ASSUMPTIONS = [
 
 
 def run(ctx):
-    n = ctx.tlc_vectors('RelayE2E', 'Vec_RelayE2E.cfg')
+    import os
+    cfg = open(os.path.join(os.path.dirname(os.path.dirname(os.path.dirname(os.path.abspath(__file__)))), 'spec', 'Vec_RelayE2E.cfg')).read()
+    if not ctx.quick:
+        cfg = cfg.replace('QuickBits', 'AllBits')
+    n = ctx.tlc_vectors('MC_RelayE2E', 'Vec_RelayE2E.cfg', cfgtext=cfg)
     res = ctx.gotest('e2e', 'TestVerif_C15', tags='verif e2e_testing', also=('net',), timeout=1500)
     ctx.take_mismatches(res)
     if res.get('actions', {}).get('uncaptured'):
         from tools.check import MachineryError
         raise MachineryError('relayed tunnel could not be established in the scenario: %s' % str(res.get('extra'))[:1500])
-    ctx.require_actions('alter:none', 'alter:flipbody', 'alter:splice', 'alter:replayed', 'claim:other', 'claim:own')
+    ctx.require_actions('alter:none', 'alter:flipbit', 'flip:header', 'alter:splice', 'alter:replayed', 'alter:newcounter', 'retype:80', 'retype:64', 'retype:96',
+                        'claim:other', 'claim:own')
 
 
 META = {
@@ -30,7 +38,7 @@ META = {
     'text': 'The specification says a relayed packet is attributed to the endpoint whose tunnel key opens the inner packet, whatever '
             'relay record carries it, and that any inner packet the relay touched is dropped without effect; on real nodes the '
             'harness re-wraps captured inner packets (altered, spliced, replayed, under the other endpoint\'s relay record) with '
-            'the relay\'s own keys and checks tun output, per-tunnel accounting, unchanged state on drops, bit-exact forwarding by '
+            'the relay\'s own keys and checks tun output, per-tunnel accounting, unchanged state, no answer and a still working tunnel on drops, bit-exact forwarding by '
             'the honest relay and absence of the plaintext in everything the relay handles.',
     'design_ref': '3.4 C15',
     'note': 'Terminal relays only (the target is the last hop); relay re-establishment is covered by C39\'s histories.',
